@@ -20,29 +20,30 @@ import re
 from collections import Counter
 from typing import Any
 
-from .. import core, escommon, impl_cli
+from .. import core, decomp_common, escommon, impl_cli
 from ..gen import surface
 from ..gen.programs import Cfg
 from .c01 import table_mismatch
 
 MODULES = ["ESV.Props.C15"]
 THEOREMS = [
-    "ESV.C15.cli_docshape", "ESV.C15.cli_roundtrip", "ESV.C15.cli_positional", "ESV.C15.cli_positional_only",
-    "ESV.C15.cli_positional_iff", "ESV.C15.cli_gap_counterexample", "ESV.C15.cli_gap_wrong_op_counterexample",
-    "ESV.C15.cli_out_of_order_counterexample",
-    "ESV.C15.cli_build_positional_fixed", "ESV.C15.cli_fixed_conservative", "ESV.C15.cli_fixed_on_witnesses",
-    "ESV.C15.cli_coroutine_counterexample", "ESV.C15.cli_coroutine_fixed", "ESV.C15.cli_target_null_counterexample",
-    "ESV.C15.cli_posmark_int_counterexample", "ESV.C15.cli_accepts_documented", "ESV.C15.docShapeStr_documented",
+    "ESV.C15.cli_docshape", "ESV.C15.cli_accepts_documented", "ESV.C15.docShapeStr_documented",
+    "ESV.C15.cli_roundtrip", "ESV.C15.cli_build_positional", "ESV.C15.cli_positional", "ESV.C15.cli_conservative",
+    "ESV.C15.cli_coroutines_named",
+    "ESV.C15.cli_raw_positional", "ESV.C15.cli_raw_positional_only", "ESV.C15.cli_raw_positional_iff",
+    # witnesses of the repaired defects, against the old behaviour (lean/ESV/Cli/Pinned.lean)
+    "ESV.C15.cli_gap_counterexample", "ESV.C15.cli_gap_wrong_op_counterexample", "ESV.C15.cli_out_of_order_counterexample",
+    "ESV.C15.cli_coroutine_counterexample", "ESV.C15.cli_target_null_counterexample", "ESV.C15.cli_posmark_int_counterexample",
     "ESV.Cli.cliParsePos_posFinal",
 ]
 
 SETTINGS = impl_cli.SETTINGS
 ROUTINE_TYPES = ("COROUTINE", "GENERIC", "ACTOR", "OBJECT", "PERFORMER")
-OFFSET_KINDS = ("cli_jump_param_is_internal_offset_after_gap", "cli_jump_param_is_internal_offset_after_out_of_order_op")
 # beh.validate {prog = decompiled text, ops = compiled ops}: silent-right = the *source* has an op-free cycle (outside the quantifier)
 BAD = ("differ", "silent-left", "check-rejected")
 
-# fixed programs that always run first: witnesses of the Lean counterexample theorems and of every documented feature
+# fixed programs that always run first: the witnesses of the Lean counterexample theorems (defects repaired by fix: commits —
+# a regression is a VIOLATION) and every documented feature
 CORPUS = [
     ("gap_if", "def 0 { if ($X == 1) { a(); } b(); }"),
     ("gap_wrong_op", "def 0 { jump @l; @l; jump @m; a(); @m; b(); c(); }"),
@@ -293,13 +294,7 @@ def jump_oracle(doc: dict, ref: dict, jt: dict) -> list[tuple[str, str]]:
                 internal = exp[idx]
                 want = pos.get(internal)
                 if got[idx] != want:
-                    if got[idx] == internal and want is not None and internal > want:
-                        kind = "cli_jump_param_is_internal_offset_after_gap"          # ops were dropped before the target
-                    elif got[idx] == internal and want is not None and internal < want:
-                        kind = "cli_jump_param_is_internal_offset_after_out_of_order_op"  # an op numbered later stands before the target
-                    else:
-                        kind = "jump_param_wrong"
-                    bad.append((kind, f"routine {ri} op {k} ({co['name']}): printed jump parameter {got[idx]}, the target is op number {want} (internal offset {internal})"))
+                    bad.append(("jump_param_is_not_position", f"routine {ri} op {k} ({co['name']}): printed jump parameter {got[idx]}, the target is op number {want} (internal offset {internal})"))
                 exp[idx] = got[idx] = None
             if got != exp:
                 bad.append(("params_differ", f"routine {ri} op {k} ({co['name']}): printed {json.dumps(po['params'])[:150]}, compiled {json.dumps(co['params'])[:150]}"))
@@ -317,10 +312,7 @@ def info_oracle(doc: dict, ref: dict) -> list[tuple[str, str]]:
         if info["type"] in ("ACTOR", "OBJECT", "PERFORMER"):
             want = info["linked_to_name"] if info["linked_to_name"] is not None else info["linked_to"]
             if r.get("target_id") != want:
-                if r.get("target_id", 0) is None and info["linked_to"] == -1 and info["linked_to_name"] is None:
-                    bad.append(("cli_target_id_null_for_linked_to_minus_one", f"routine {ri}: compiled target is the id -1, printed \"target_id\": null"))
-                else:
-                    bad.append(("target_differs", f"routine {ri}: printed target_id {r.get('target_id')!r}, compiled {want!r}"))
+                bad.append(("target_differs", f"routine {ri}: printed target_id {r.get('target_id')!r}, compiled {want!r}"))
     return bad
 
 
@@ -514,7 +506,14 @@ def pmap(pool: core.Pool, fn: str, args: list, chunk: int, timeout: float, defau
     outs = pool.map(fn, chunks, timeout=timeout) if chunks else []
     res: list = []
     for ch, o in zip(chunks, outs):
-        res += o if isinstance(o, list) and len(o) == len(ch) else [dict(default, detail=json.dumps(o)[:200]) for _ in ch]
+        if isinstance(o, list) and len(o) == len(ch):
+            res += o
+            continue
+        # the chunk as a whole gave no answer (worker died / timed out): ask element by element
+        singles = pool.map(fn.replace("_many", ""), ch, timeout=timeout)
+        for x in singles:
+            ok = isinstance(x, dict) and not ("__timeout__" in x or "__died__" in x or "__exc__" in x or "__garbled__" in x)
+            res.append(x if ok else dict(default, detail=json.dumps(x)[:300], chunk_detail=json.dumps(o)[:300]))
     return res
 
 
@@ -548,7 +547,6 @@ def run(run: core.Run) -> int:
                     4, 600, {"infra": True})
 
         # ---- (i)-(iii) on the compile command -----------------------------------------------------------------------
-        second: list[tuple[int, dict, str]] = []     # (case index, document to feed to the decompile command, tag)
         docs_printed: dict[int, Any] = {}
         for k in range(n_cli):
             c, ref, s = cases[k], refs[k], subs[k]
@@ -559,7 +557,6 @@ def run(run: core.Run) -> int:
             cc = s["compile"]
             rep = {"text": c["text"], "rc": cc["rc"], "stderr": cc["stderr_last"], "stdout": cc["stdout"][:600]}
             ok_ref = "error" not in ref
-            gap_ids = ok_ref and any(i is None for i in ref["infos"])
             stats["compile_ok" if ok_ref else "compile_error:" + ref["error"]] += 1
             if not ok_ref:
                 if cc["rc"] == 0:
@@ -568,8 +565,7 @@ def run(run: core.Run) -> int:
                     run.violation("json_printed_on_failure", f"compile command prints output although the compiler raises {ref['error']}", rep)
                 continue
             if cc["rc"] != 0:
-                kind = "cli_compile_crashes_on_routine_id_gap" if gap_ids and "NoneType" in cc["stderr_last"] else "exit_nonzero_on_success"
-                run.violation(kind, f"compile command exits {cc['rc']} ({cc['stderr_last'][:120]}) although the compiler accepts the program", rep)
+                run.violation("exit_nonzero_on_success", f"compile command exits {cc['rc']} ({cc['stderr_last'][:120]}) although the compiler accepts the program", rep)
                 if cc["stdout"].strip():
                     run.violation("json_printed_on_failure", "compile command prints output and exits non-zero", rep)
                 continue
@@ -603,21 +599,14 @@ def run(run: core.Run) -> int:
                 run.violation(kind, what, rep)
             if errs:
                 stats["docshape_fail"] += 1
-                if not any(kd == "cli_target_id_null_for_linked_to_minus_one" for kd, _ in ibad) or any("target_id" not in e for e in errs):
-                    run.violation("not_documented_structure", "; ".join(errs[:3]), rep)
+                run.violation("not_documented_structure", "; ".join(errs[:3]), rep)
                 c["doc_errors"] = errs
-            jbad = jump_oracle(doc, ref_rs, jt) if isinstance(doc.get("routines"), list) and not [e for e in errs if "target_id" not in e] else []
+            jbad = jump_oracle(doc, ref_rs, jt) if isinstance(doc.get("routines"), list) and not errs else []
             for kind, what in jbad[:2]:
                 run.violation(kind, what, rep)
             stats["positional" if not jbad else "not_positional"] += 1
             c["jbad"] = jbad
-            # (iv) what is fed to the decompile command: exactly what was printed; for the known offset defect also the
-            # document with the jump parameters replaced by positions, so that the rest of the round trip stays checked
-            if jbad and all(kd in OFFSET_KINDS for kd, _ in jbad):
-                second.append((k, rs_to_doc(ref_rs, jt) | {"settings": doc["settings"]}, "patched"))
         noans = {"rc": None, "stdout": "", "stderr_last": "no answer"}
-        sec_flat = pmap(pool, "harness.impl_cli:cli_decompile_many", [{"doc_text": json.dumps(d)} for _, d, _ in second], 4, 600, noans)
-        patched = {k: r for (k, _, _), r in zip(second, sec_flat)}
 
         # in-process decompile of the positional form (to tell a decompiler defect from a CLI defect)
         canon_sets = {k: doc_to_rs(rs_to_doc(strip_rs(refs[k]), jt)) for k in docs_printed}
@@ -647,7 +636,6 @@ def run(run: core.Run) -> int:
         build_sets += [random_rs(rng, base_sets) for _ in range(n_inproc // 2)] if base_sets else []
         bargs = [{"rs": b, "settings": SETTINGS["settings"]} for b in build_sets]
         builds_flat = pmap(pool, "harness.impl_cli:build_many", bargs, 50, 300, {"err": "NoAnswer"})
-        fixeds_flat = pmap(pool, "harness.impl_cli:build_fixed_many", bargs, 50, 300, {"err": "NoAnswer"})
     finally:
         pool.close()
 
@@ -664,10 +652,6 @@ def run(run: core.Run) -> int:
         def judge_decompile(tag: str, k: int, d: dict, fed: dict, ref_rs: dict, ip: dict, rep: dict) -> None:
             """d: result of the decompile command on document `fed`; ref_rs: the ops the text must behave like;
             ip: result of the decompiler called through the Python API on the routine set the document describes"""
-            has_coro = any(r.get("type") == "COROUTINE" for r in fed["routines"])
-            has_int_coord = any(isinstance(p, dict) and p.get("type") == "POSITION_MARK" and (is_int(p["value"].get("x")) or is_int(p["value"].get("y")))
-                                for r in fed["routines"] for o in r["ops"] for p in o["params"])
-            null_target = any(i["linked_to"] == -1 and i["linked_to_name"] is None and i["type"] in ("ACTOR", "OBJECT", "PERFORMER") for i in ref_rs["infos"])
             if d.get("rc") is None or ip.get("err") == "NoAnswer":
                 run.notes.append(f"decompile command / API gave no answer ({tag} {k}): {d.get('stderr_last')} {ip.get('err')}")
                 return
@@ -677,22 +661,19 @@ def run(run: core.Run) -> int:
                 if d["stdout"].strip():
                     run.violation("text_printed_on_failure", "decompile command prints output and exits non-zero", rep)
                 cls = d["stderr_last"].split(":")[0].split(".")[-1]
-                if has_coro and "Unknown coroutine" in d["stderr_last"]:
-                    run.violation("cli_decompile_coroutine_unknown", f"decompile command refuses a documented COROUTINE routine: {d['stderr_last'][:100]}", rep)
-                elif has_int_coord and "'int' object has no attribute 'split'" in d["stderr_last"]:
-                    run.violation("cli_decompile_posmark_int_coordinate", f"decompile command refuses a documented position mark with integer coordinates: {d['stderr_last'][:100]}", rep)
-                elif ip.get("err") == cls:
+                if ip.get("err") == cls:
                     # the decompiler itself refuses this routine set (C06's business); the command adds nothing
                     run.violation("decompiler_raises_same_error_through_api", f"decompile command exits {d['rc']}: {d['stderr_last'][:150]}", rep)
                 else:
                     run.violation("decompile_command_fails_api_does_not", f"decompile command exits {d['rc']} ({d['stderr_last'][:150]}); the API gives {str(rep['api'])[:100]}", rep)
                 return
             if "err" in ip or ip["text"].strip() != d["stdout"].strip():
-                if null_target:
-                    run.violation("cli_target_id_null_for_linked_to_minus_one", "round trip: the routine for the target id -1 comes back as a routine for the target named None", rep)
-                else:
-                    run.violation("cli_decompile_differs_from_api", "decompile command prints a text although the API raises " + ip["err"] if "err" in ip
-                                  else "decompile command prints another text than the decompiler called through the API on the same routine set", dict(rep, api_text=ip.get("text", "")[:1500], cli_text=d["stdout"][:1500]))
+                run.violation("cli_decompile_differs_from_api", "decompile command prints a text although the API raises " + ip["err"] if "err" in ip
+                              else "decompile command prints another text than the decompiler called through the API on the same routine set", dict(rep, api_text=ip.get("text", "")[:1500], cli_text=d["stdout"][:1500]))
+                return
+            if decomp_common.is_fallback(d["stdout"]):
+                # the decompiler answered with its SsbScript fall-back (marked text, C06/C07's business): same text as through the API
+                rt_stats[tag + ":ssbscript-fallback"] += 1
                 return
             try:
                 with contextlib.redirect_stderr(io.StringIO()):
@@ -714,14 +695,8 @@ def run(run: core.Run) -> int:
                 continue
             ref_rs = strip_rs(refs[k])
             rep = {"text": cases[k]["text"], "printed": json.dumps(doc)[:1500], "decompile_rc": s["decompile"]["rc"], "decompile_stderr": s["decompile"]["stderr_last"]}
-            if cases[k].get("jbad"):
-                # the printed document is not positional (reported above); what the real round trip does with it is recorded
-                d = s["decompile"]
-                rt_stats["gap:rejected" if d["rc"] != 0 else "gap:accepted"] += 1
-                if k in patched:
-                    judge_decompile("patched", k, patched[k], rs_to_doc(ref_rs, jt), ref_rs, inproc_text[k],
-                                    dict(rep, decompile_rc=patched[k]["rc"], decompile_stderr=patched[k]["stderr_last"], note="jump parameters replaced by positions before decompiling"))
-                continue
+            if cases[k].get("jbad") or cases[k].get("doc_errors"):
+                continue        # reported above with the failing source
             judge_decompile("printed", k, s["decompile"], doc, ref_rs, inproc_text[k], rep)
         for i in range(n_docs_cli):
             d = docs[i]["doc"]
@@ -743,7 +718,7 @@ def run(run: core.Run) -> int:
         # exit status of the decompile command on malformed documents = outcome of the real functions
         for i in range(n_mal_cli):
             d, r = msub_flat[i], reads_flat[len(docs) + i]
-            if d.get("rc") is None:
+            if d.get("rc") is None or r.get("err") == "NoAnswer":
                 continue
             stats["malformed_cli"] += 1
             if "err" in r and (d["rc"] == 0 or d["stdout"].strip()):
@@ -754,7 +729,6 @@ def run(run: core.Run) -> int:
         # ---- (vi) correspondence model <-> real code -------------------------------------------------------------------
         sw = impl_cli.to_wire(SETTINGS["settings"])
         reqs = [{"op": "cli.build", "settings": sw, "set": b} for b in build_sets]
-        reqs += [{"op": "cli.buildfixed", "settings": sw, "set": b} for b in build_sets]
         reqs += [{"op": "cli.info", "set": b} for b in build_sets]
         wire_docs = []
         for d in all_docs:
@@ -770,23 +744,27 @@ def run(run: core.Run) -> int:
         nb, nd = len(build_sets), len(all_docs)
         for i, b in enumerate(build_sets):
             real, model = builds_flat[i], reps[i]
-            realf, modelf = fixeds_flat[i], reps[nb + i]
-            info = reps[2 * nb + i]
-            for what, a, m in (("build_routines_json", real, model), ("proposed repair of build_ops", realf, modelf)):
+            info = reps[nb + i]
+            if real.get("err") == "NoAnswer":
+                run.notes.append(f"build_routines_json gave no answer in the worker: {real.get('detail')}")
+                continue
+            for what, a, m in (("build_routines_json", real, model),):
                 a2 = {k: v for k, v in a.items() if k != "msg"}
                 if a2 != m:
                     mism += 1
                     if mism <= 3:
                         run.broken_tie(f"correspondence C15: model and implementation disagree on {what}", {"channel": "cli.build", "set": b, "impl": a2, "model": m})
             stats["build_err" if "err" in real else "build_ok"] += 1
-            # theorem instances on real data: the repaired output is positional and reads back as canon
-            if "json" in realf and info.get("closed"):
-                stats["fixed_checked"] += 1
+            stats["sets_closed"] += bool(info.get("closed"))
         for i, d in enumerate(all_docs):
             if wire_docs[i] is None:
                 stats["doc_unrepresentable"] += 1
                 continue
-            real, model = reads_flat[i], reps[3 * nb + i]
+            real, model = reads_flat[i], reps[2 * nb + i]
+            if real.get("err") == "NoAnswer":
+                run.notes.append(f"read_routines gave no answer in the worker: {real.get('detail')} / {real.get('chunk_detail')}")
+                stats["read_no_answer"] += 1
+                continue
             if model.get("err") == "Outside":
                 stats["read_outside_model"] += 1
                 continue
@@ -796,25 +774,27 @@ def run(run: core.Run) -> int:
                 mism += 1
                 if mism <= 3:
                     run.broken_tie("correspondence C15: model and implementation disagree on read_routines", {"channel": "cli.read", "document": d["doc"], "impl": a2, "model": model})
-            shape, shape_str = reps[3 * nb + nd + i].get("ok"), reps[3 * nb + nd + i].get("str")
+            shape, shape_str = reps[2 * nb + nd + i].get("ok"), reps[2 * nb + nd + i].get("str")
             hand, hand_str = not doc_errors(d["doc"]), not doc_errors(d["doc"], ints=False)
             if shape != hand or shape_str != hand_str:
                 mism += 1
                 run.broken_tie("the Lean DocShape and the hand-written validator of the documented structure disagree", {"document": d["doc"], "lean": [shape, shape_str], "hand": [hand, hand_str], "errors": doc_errors(d["doc"])})
             stats["docs_documented"] += bool(hand)
             stats["docs_documented_string_coordinates"] += bool(hand_str)
-            if shape_str and "err" in model:
+            if shape and "err" in model:
                 # instance of theorem cli_accepts_documented on this document
                 run.broken_tie("the model refuses a document with the documented structure (contradicts ESV.C15.cli_accepts_documented)", {"document": d["doc"], "model": model})
             if d["tag"] != "malformed" and not hand:
                 run.broken_tie("generator produced a document outside the documented structure", {"document": d["doc"], "errors": doc_errors(d["doc"])})
             # documented documents must be accepted by read_routines (the part of the command before the decompiler)
             if hand and "err" in real:
-                has_int = "'int' object has no attribute 'split'" in real.get("msg", "")
-                run.violation("cli_decompile_posmark_int_coordinate" if has_int else "read_routines_refuses_documented_input",
+                run.violation("read_routines_refuses_documented_input",
                               f"read_routines raises {real['err']}: {real.get('msg', '')[:100]} on a documented document", {"document": json.dumps(d["doc"])[:2500]})
+        if stats["read_no_answer"] > max(3, len(all_docs) // 100):
+            run.broken_tie(f"correspondence C15: read_routines gave no answer for {stats['read_no_answer']} of {len(all_docs)} documents (adapter broken?)",
+                           {"channel": "cli.read", "notes": run.notes[:3]})
         for j, k in enumerate(printed_keys):
-            shape = reps[3 * nb + 2 * nd + j].get("ok")
+            shape = reps[2 * nb + 2 * nd + j].get("ok")
             hand = not doc_errors(docs_printed[k])
             if shape != hand:
                 mism += 1
@@ -843,7 +823,7 @@ def run(run: core.Run) -> int:
                 "extra arguments of all six documented argument types (incl. integer position coordinates), the documentation's own example, and malformed variants; "
                 "non-trivial = program accepted by the compiler / document within the documented structure",
         "samples": ok_texts[len(CORPUS):len(CORPUS) + 2] + [json.dumps(docs[-1]["doc"])[:600]] if docs else ok_texts[:2],
-        "programs_through_subprocesses": n_cli, "documents_through_decompile_command": n_docs_cli + n_mal_cli + len(second),
+        "programs_through_subprocesses": n_cli, "documents_through_decompile_command": n_docs_cli + n_mal_cli,
         "programs_in_process": len(cases), "documents_in_process": len(all_docs), "routine_sets_built_in_process": len(build_sets),
         "generator_stats": dict(stats), "round_trip_verdicts": dict(rt_stats), "correspondence_mismatches": mism,
         "level_note": "proof for the JSON <-> ops mapping (model tied by exact comparison); the behavioural end-to-end part is translation validation "
